@@ -1,10 +1,21 @@
 """C07 – options given to a manifest reach its media requests with the same meaning.
 
 Layer A: lean/DashLive/Props/C07.lean (codec_roundtrip_<kind>, transport_id / transport_query,
-forwarding_complete / forwarding_minimal, media_side_same_value, inject_roundtrip_*, and the
-`decide +kernel` obligations over the *generated* registry table Gen/Options.lean).
-Layer B: translator harness/gen_options.py (re-run every check, cross-checked against the live
-objects) + channels `optcodec`, `optforward`, `opt_e2e`.
+forwarding_complete / forwarding_minimal, media_side_same_value, inject_roundtrip_*; phase 2:
+supported_options_survive(_table), unsupported_options_dropped_consistently,
+request_to_media_same_value(_generated) over the model of calculate_options with restrictions /
+features / stream defaults, check_option_values, remove_unsupported_features,
+remove_unused_parameters and ServeManifest's adjustments; and the `decide +kernel` obligations over the
+*generated* tables Gen/Options.lean and Gen/Manifests.lean).
+Layer B: translators harness/gen_options.py and harness/gen_manifests.py (re-run every check,
+cross-checked against the live objects) + channels `optcodec`, `optforward`, `optfilter`, `opt_e2e`.
+
+Date-times (C19, lean/DashLive/Props/C07Dt.lean): `to_iso_datetime` writes a value without zone
+with `Z` and `from_isodatetime` reads that back aware, so the text round trip holds on *aware*
+values only (`c19_text_roundtrip_partial`).  A `start=<text without zone>` never reaches a URL as a
+naive value: `check_option_values` (C16, base.py:147-149) makes it aware (UTC) on the manifest side
+before anything is generated; the model has this as `DTCodec.check`, `opt_e2e`/`optfilter` generate
+such requests and the media side is observed to get the aware value the MPD advertises.
 Layer C: the property text on the real code – unit level (from_string(to_string(v)) == v on the
 registered option objects) and end to end (manifest rendered by the booted app, init/media URLs taken
 from the XML as a client would, re-parsed by the media handler's own option parser, compared field by
@@ -15,6 +26,7 @@ from __future__ import annotations
 import logging
 
 import common
+import gen_manifests
 import gen_options
 from common import Channel
 
@@ -46,8 +58,11 @@ MANIFEST_ENTRY = {
 }
 PROP_FILES = ["DashLive/Props/C07.lean", "DashLive/Props/C07Dt.lean"]
 LEAN_TARGETS = ["DashLive.Props.C07", "DashLive.Props.C07Dt"]
-GENERATORS = [gen_options.main]
+GENERATORS = [gen_options.main, gen_manifests.main]
 TRUSTED = [
+    "harness/gen_manifests.py: manifest_map (features, restrictions incl. the str-valued one, segment_timeline) and "
+    "the literal name sets of remove_unsupported_features / remove_unused_parameters read with ast; an "
+    "unrecognised shape aborts the run; cross-checked by channel optfilter on every template",
     "harness/gen_options.py: codec kind assigned from the identity of the registered from_string/to_string "
     "callables (closure cells, lambda byte code); an unknown callable or pair aborts the run; the table is "
     "cross-checked against the live DashOption objects (defaults, usage, names) in channel optcodec",
@@ -70,6 +85,14 @@ ASSUMPTIONS = [
     "live timing options are compared only for live manifests; DRM/event specific options only when that DRM "
     "system / event type is selected (property: options that influence media generation)",
     "fixture stream 'tears' has no encrypted files: no DRM selection is generated for it",
+    "date-time values are aware: a start time without zone is made aware (UTC) by check_option_values before "
+    "it is used or forwarded (C19: the text round trip of a naive value does not hold, c19_text_roundtrip_partial); "
+    "the unit-level round-trip oracle therefore generates aware date-times only",
+    "request_to_media_same_value keeps two explicit hypotheses: what the manifest's timing writes back "
+    "(availabilityStartTime, timeShiftBufferDepth; C08) is a canonical value, and an escaped licence URL does not "
+    "un-escape to a spelling of 'none'",
+    "a start time in the future (negative MPD@timeShiftBufferDepth, C08's subject) is not compared for depth and "
+    "time-of-day injection",
     "opt_e2e's predicted query string takes the texts of start, depth and the translated verr/aerr/terr/vcorrupt "
     "from the actual URL (their values are checked by the oracle against MPD@availabilityStartTime, "
     "MPD@timeShiftBufferDepth and an independent time-to-segment translation); every other key, the order, the "
@@ -140,11 +163,30 @@ def channels(ctx):
         traceback.print_exc()
         ch.errors.append(f"{type(e).__name__}: {e}")
     yield ch
+    ch = Channel("optfilter", rule=(
+        "the option handling of a manifest request before URLs are built – calculate_options with the "
+        "template's restrictions and features and stream defaults, check_option_values, "
+        "remove_unsupported_features, ServeManifest's patch/segmentTimeline adjustments, "
+        "remove_unused_parameters – and the media handler's calculate_options, on every template x a list of "
+        "hostile argument sets (unknown DRM/time method, time of day or zone-less start, empty positions, "
+        "event limits, out-of-range spans, restricted values) and random option subsets, vs the model "
+        "(optserve, optcalc: same refusal or the same field values); non-trivial = at least one argument; "
+        "distinct by (template, mode, arguments, stream defaults)"))
+    try:
+        c07_unit.run_optfilter(ctx, ch)
+    except Exception as e:
+        import traceback
+        traceback.print_exc()
+        ch.errors.append(f"{type(e).__name__}: {e}")
+    yield ch
     ch = Channel("opt_e2e", rule=(
         "manifest requests on the booted app (9 templates x live/vod/odvod, streams bbb and tears [stream "
-        "defaults]) with a random subset of the 55 options; oracle = property text on the init/media URLs of the "
-        "XML; correspondence = model's predicted query string per media type and model's parse of every URL vs "
-        "the real handler; non-trivial = status 200 with at least one option and one media URL; distinct by URL"))
+        "defaults]) with a random subset of the 55 options (12% with a hostile argument set); oracle = property "
+        "text on the init/media URLs of the XML; correspondence = the query string of every media type predicted "
+        "by the model from the *request* (optreqquery: restrictions, features, value check, filters, "
+        "generate_cgi_parameters, escaping), the model's refusal for every 400, the handler's option pipeline "
+        "(optserve) and the model's parse of every URL (optmedia) vs the real application; non-trivial = "
+        "status 200 with at least one option and one media URL; distinct by URL"))
     try:
         c07_e2e.run_e2e(ctx, ch)
     except Exception as e:
